@@ -58,7 +58,13 @@ def ensure_tools():
             print(r.stdout)
             print("checker broken: cannot build mirfacts driver")
             sys.exit(2)
-    if not (os.path.exists(GRAMMARFACTS) and os.path.exists(RXTOOL)):
+    def _stale(binary, src_dir):
+        try:
+            t = os.path.getmtime(binary)
+            return any(os.path.getmtime(os.path.join(d, f)) > t for d, _s, fs in os.walk(src_dir) for f in fs)
+        except OSError:
+            return True
+    if not (os.path.exists(GRAMMARFACTS) and os.path.exists(RXTOOL)) or _stale(RXTOOL, os.path.join(VERIF, "tools", "stable", "src")):
         r = sh(["cargo", "build", "--release", "--offline"], cwd=os.path.join(VERIF, "tools", "stable"))
         if r.returncode != 0:
             print(r.stdout)
